@@ -1,0 +1,57 @@
+//! Verification hooks (only compiled with `--features verif`).
+//!
+//! Schedule points: the server calls [`point`] at its synchronisation-relevant places (before
+//! and after taking the vfs lock, around database writes, at the start and end of handlers
+//! and snapshot tasks). A harness installs a process-global callback and may block the calling
+//! thread inside it to take control of the interleaving. Without a callback a point is a no-op.
+use std::cell::Cell;
+use std::sync::atomic::{AtomicU64, Ordering};
+use std::sync::{Arc, RwLock};
+
+pub struct Event {
+    /// which schedule point
+    pub site: &'static str,
+    /// id of the snapshot task the calling thread is running (None on the main loop);
+    /// for "task.spawn" the id of the task being spawned
+    pub task: Option<u64>,
+}
+
+pub type Callback = Arc<dyn Fn(&Event) + Send + Sync>;
+
+static CALLBACK: RwLock<Option<Callback>> = RwLock::new(None);
+static NEXT_TASK: AtomicU64 = AtomicU64::new(0);
+
+thread_local! {
+    static CURRENT_TASK: Cell<Option<u64>> = const { Cell::new(None) };
+}
+
+pub fn set_callback(callback: Option<Callback>) {
+    *CALLBACK.write().unwrap() = callback;
+}
+
+pub fn point(site: &'static str) {
+    point_for(site, CURRENT_TASK.with(|t| t.get()));
+}
+
+fn point_for(site: &'static str, task: Option<u64>) {
+    let callback = CALLBACK.read().unwrap().clone();
+    if let Some(callback) = callback {
+        callback(&Event { site, task });
+    }
+}
+
+pub(crate) fn spawn_task() -> u64 {
+    let id = NEXT_TASK.fetch_add(1, Ordering::SeqCst);
+    point_for("task.spawn", Some(id));
+    id
+}
+
+pub(crate) fn enter_task(id: u64) {
+    CURRENT_TASK.with(|t| t.set(Some(id)));
+    point("task.begin");
+}
+
+pub(crate) fn leave_task() {
+    point("task.end");
+    CURRENT_TASK.with(|t| t.set(None));
+}
